@@ -33,6 +33,25 @@ func c06TearSpec(rng *rand.Rand, i int) *SessSpec {
 	return sp
 }
 
+func c06MitigatedSpec(rng *rand.Rand, j int) *SessSpec {
+	sp := &SessSpec{NumVB: 1 + rng.Intn(3), Nodes: 2, Replicas: 1, AckSeed: rng.Int63(), Backend: []string{"mem", "cb"}[j%2], Backlog: map[int][][]ItemSpec{}, RollbackMitigation: true,
+		RMIntervalMs: 10 + rng.Intn(10), ObserveInit: map[string][2]uint64{}, PNow: 0.5, PDefer: 0.5}
+	o := &HistOpts{NumVB: sp.NumVB, PSystem: 0.05, PSeqAdv: 0.15, MaxItems: 4}
+	ctr := 0
+	for vb := 0; vb < sp.NumVB; vb++ {
+		sp.Backlog[vb] = append(sp.Backlog[vb], genSnap(rng, o, &ctr))
+		for ix := 0; ix < 2; ix++ {
+			sp.ObserveInit[fmt.Sprintf("%d:%d", vb, ix)] = [2]uint64{0, 1000}
+		}
+	}
+	vb := rng.Intn(sp.NumVB)
+	sp.GatedVB = vb
+	sp.Steps = []Step{{Op: "barrier"}, {Op: "append", VB: vb, Items: genSnap(rng, o, &ctr)}, {Op: "barrier"},
+		{Op: "observe", VB: vb, N: 0, St: 1000, Ms: 0xbeef}, {Op: "observe", VB: vb, N: 1, St: 1000, Ms: 0xbeef}, {Op: "waitrounds", VB: vb, N: 3},
+		{Op: "append", VB: vb, Items: genSnap(rng, o, &ctr)}, {Op: "append", VB: vb, Items: genSnap(rng, o, &ctr)}, {Op: "barrier"}, {Op: "ack", Sel: "all"}, {Op: "commit"}, {Op: "barrier"}}
+	return sp
+}
+
 func c06Spec(rng *rand.Rand, i int) *SessSpec {
 	sp := &SessSpec{NumVB: 1 + rng.Intn(6), Nodes: 1 + rng.Intn(2), AckSeed: rng.Int63(), Backlog: map[int][][]ItemSpec{}}
 	sp.Backend = []string{"mem", "cb", "mem", "cb", "file"}[rng.Intn(5)]
@@ -175,6 +194,12 @@ func init() {
 			}
 			for _, il := range ills {
 				out = append(out, drv.Scenario{Kind: "illformed", Seed: seed, Params: mustJSON(il), Solo: true, TimeoutS: 60})
+			}
+			// rollback mitigation on: the copies report another branch (a fail-over the observation sees before the stream does)
+			// while the stream opened on the old branch keeps delivering; offsets carry the branch of the stream
+			xr := rand.New(rand.NewSource(seed*17 + 9))
+			for j := 0; j < n/50; j++ {
+				out = append(out, drv.Scenario{Kind: "session", Seed: seed, Params: mustJSON(c06MitigatedSpec(xr, j)), TimeoutS: 90})
 			}
 			return out
 		},
